@@ -28,6 +28,13 @@ def case(fam, geometry, rep):
         dim = gen.FAMILIES[fam]["dim"]
         n = tuple(int(x) for x in rng.integers(2, 5, dim)) if rep else None
         mesh, info = gen.build_mesh(fam, geometry, rng, n=n)
+        if geometry in ("distorted", "curved") or rep % 2:
+            # point numbers carry no meaning: the same body with its points in random order (generators number them structured)
+            perm = rng.permutation(mesh.npoints)
+            inv = np.empty_like(perm)
+            inv[perm] = np.arange(mesh.npoints)
+            mesh = fem.Mesh(mesh.points[perm], inv[mesh.cells], mesh.cell_type)
+            run.units["points-in-random-order"] += 1
         R = getattr(fem, TEMPLATES[fam])
         MB.attach_hook(run)
         try:
@@ -161,7 +168,7 @@ def _required():
             req += [u + ":normals", u + ":tangents", u + ":outward", u + ":flux"]
         req += ["%s:only_surface=True:closure" % fam, "%s:only_surface=False:cell-closure" % fam, fam + ":mask",
                 fam + ":cells_faces", fam + ":surface-selection"]
-    req += ["quad:ensure_3d", "quad8:ensure_3d", "quad9:ensure_3d"]
+    req += ["quad:ensure_3d", "quad8:ensure_3d", "quad9:ensure_3d", "points-in-random-order"]
     req += ["%s:only_surface=%s:face-area-vector" % (f, s_) for f in ("quad", "hexahedron") for s_ in (True, False)]
     return req
 
